@@ -4,7 +4,13 @@
     4-node ADMGs x every counterfactual variable with up to two subscripts (reflexive subscripts included);
   * simplify against a functional-SCM oracle: None only for events of probability zero (in the sampled models), otherwise the
     returned event has the same probability.
-The ancestral components and the counterfactual-factor factorisation are not covered (stated in the manifest)."""
+  * get_ancestral_components against a re-implementation of Def. 4.2 (ancestral sets after cutting the out-edges of X*(W_t),
+    merged while they share a vertex or are joined by a bidirected edge), X* a random subset of W*;
+  * do_counterfactual_factor_factorization against Eq. 11-15 (ancestors in ctf-factor form, one joint factor per district of
+    G[An(Y*)], sum over the non-query ancestors), and the identity itself evaluated on the returned expression with functional SCMs
+    (a subscript is literal iff it stems from the query variable's own subscripts, else it takes the value of its variable);
+    queries whose ancestor set contains one vertex under two different subscript sets are skipped (the library sums over names,
+    the paper over counterfactual variables)."""
 from __future__ import annotations
 
 import json
@@ -105,6 +111,136 @@ def run_simplify_case(c):
     return None
 
 
+
+def ref_components(vs, d, u, roots, conds):
+    """Def. 4.2: roots / conds are lists of (name, ivs); returns a set of frozensets of (name, frozenset ivs)."""
+    minimized = {(n, frozenset(ref_minimize(vs, d, n, ivs))) for n, ivs in conds}
+    sets = []
+    for n, ivs in roots:
+        anc = ref_ancestors(vs, d, n, ivs)
+        cut = {m for m in minimized if m in anc}
+        cut_names = {m[0] for m in cut}
+        d2 = [(a, b) for a, b in d if a not in cut_names]
+        sets.append(frozenset(ref_ancestors(vs, d2, n, ivs)))
+    comps = [set(s) for s in dict.fromkeys(sets)]
+    changed = True
+    while changed:
+        changed = False
+        for i in range(len(comps)):
+            for j in range(i + 1, len(comps)):
+                ni, nj = {x[0] for x in comps[i]}, {x[0] for x in comps[j]}
+                if ni & nj or any((a in ni and b in nj) or (a in nj and b in ni) for a, b in u):
+                    comps[i] |= comps[j]
+                    del comps[j]
+                    changed = True
+                    break
+            if changed:
+                break
+    return {frozenset(c) for c in comps}
+
+
+def run_components_case(c):
+    au = concrete.y0mod(QUAL + ".ancestor_utils")
+    vs, d, u = c["nodes"], c["directed"], c["undirected"]
+    g = oracles.build(vs, d, u)
+    roots = [(n, [tuple(x) for x in ivs]) for n, ivs in c["roots"]]
+    conds = [(n, [tuple(x) for x in ivs]) for n, ivs in c["conds"]]
+    try:
+        got = au.get_ancestral_components(conditioned_variables={cf(n, ivs) for n, ivs in conds},
+                                          root_variables={cf(n, ivs) for n, ivs in roots}, graph=g)
+    except Exception as e:
+        return f"get_ancestral_components raised {type(e).__name__}: {e}"
+    got_sig = {frozenset(sig(v) for v in comp) for comp in got}
+    want = {frozenset((n, frozenset(i)) for n, i in comp) for comp in ref_components(vs, d, u, roots, conds)}
+    if got_sig != want:
+        show = lambda cs: sorted(sorted(f"{n}@{sorted(i)}" for n, i in comp) for comp in cs)
+        return f"get_ancestral_components = {show(got_sig)}, Def. 4.2 gives {show(want)}"
+    return None
+
+
+def ref_factorization(vs, d, u, query):
+    """Eq. 11-15.  query: list of (name, ivs, value).  Returns (factors, sum_names, literal) with factors a set of frozensets of
+    (name, frozenset of (parent, star)); None when two ancestors share a vertex (the sum over names is then not the paper's)."""
+    dstar = set()
+    for n, ivs, _ in query:
+        dstar |= ref_ancestors(vs, d, n, ivs)
+    names = [n for n, _ in dstar]
+    if len(names) != len(set(names)):
+        return None
+    literal = {n: dict(t) for n, t in dstar}
+    form = {}
+    for n, t in dstar:
+        lit = dict(t)
+        form[n] = frozenset((p, bool(lit[p]) if p in lit else False) for p, c in d if c == n)
+    sub_u = [(a, b) for a, b in u if a in form and b in form]
+    g = nx.Graph()
+    g.add_nodes_from(form)
+    g.add_edges_from(sub_u)
+    factors = {frozenset((n, form[n]) for n in comp) for comp in nx.connected_components(g)}
+    return factors, set(form) - {n for n, _, _ in query}, literal
+
+
+def _destructure(expr):
+    dsl = concrete.y0mod("y0.dsl")
+    ranges = set()
+    if isinstance(expr, dsl.Sum):
+        ranges = {r.name for r in expr.ranges}
+        expr = expr.expression
+    parts = list(expr.expressions) if isinstance(expr, dsl.Product) else [expr]
+    factors = set()
+    for part in parts:
+        if not isinstance(part, dsl.Probability) or part.parents:
+            raise ValueError(f"unexpected factor {part}")
+        factors.add(frozenset((v.name, frozenset((i.name, bool(i.star)) for i in getattr(v, "interventions", ()))) for v in part.children))
+    return ranges, factors
+
+
+def run_factor_case(c):
+    api = concrete.y0mod(QUAL + ".api")
+    dsl = concrete.y0mod("y0.dsl")
+    vs, d, u = c["nodes"], c["directed"], c["undirected"]
+    g = oracles.build(vs, d, u)
+    query = [(n, [tuple(x) for x in ivs], val) for n, ivs, val in c["query"]]
+    ref = ref_factorization(vs, d, u, query)
+    if ref is None:
+        return None
+    variables = [(cf(n, ivs), dsl.Intervention(name=n, star=bool(val))) for n, ivs, val in query]
+    try:
+        expr, event = api.do_counterfactual_factor_factorization(variables=list(variables), graph=g)
+    except Exception as e:
+        return f"do_counterfactual_factor_factorization raised {type(e).__name__}: {e}"
+    factors, sum_names, literal = ref
+    try:
+        ranges, got = _destructure(expr)
+    except ValueError as e:
+        return f"factorisation is not a sum over a product of joint ctf-factors: {e}"
+    if ranges != sum_names or got != factors:
+        return f"factorisation = sum over {sorted(ranges)} of {sorted(map(sorted, got))}; Eq. 15 gives sum over {sorted(sum_names)} of {sorted(map(sorted, factors))}"
+    want_event = [((n, frozenset((p, bool(dict(ivs)[p]) if p in dict(ivs) else False) for p, ch in d if ch == n)), bool(val)) for n, ivs, val in query]
+    if [(sig(v), bool(val.star)) for v, val in event] != want_event:
+        return f"returned event {event} is not the query in ctf-factor form {want_event}"
+    # the identity itself (Eq. 15), evaluated on the returned expression with functional SCMs
+    for k in range(2):
+        m = fscm.FSCM(vs, d, u, c["seed"] + k)
+        p0 = m.event_prob([(n, {a: int(b) for a, b in ivs}, int(val)) for n, ivs, val in query])
+        fixed = {n: int(val) for n, _, val in query}
+        total = 0
+        import itertools as itt
+        free = sorted(ranges)
+        for vals in itt.product((0, 1), repeat=len(free)):
+            env = {**fixed, **dict(zip(free, vals))}
+            term = 1
+            for f in got:
+                trip = [(n, {p: (int(s) if p in literal[n] else env[p]) for p, s in subs}, env[n]) for n, subs in f]
+                term *= m.event_prob(trip)
+                if term == 0:
+                    break
+            total += term
+        if total != p0:
+            return f"factorised sum-product = {total}, query probability = {p0}"
+    return None
+
+
 def gen_cases(tier, rng):
     import itertools as itt
     for vs, d, u in cfcommon.small_graphs(rng, tier, 200 if tier == "quick" else 5000):
@@ -125,12 +261,24 @@ def gen_cases(tier, rng):
             if consistent and not inconsistent:
                 continue        # class of the open known finding: a consistent reflexive conjunct and no inconsistent one
             yield ("simplify", {"nodes": vs, "directed": d, "undirected": u, "event": cfcommon.event_to_json(ev), "seed": rng.randrange(1 << 30)})
+        for _ in range(3):
+            ev = cfcommon.event_to_json(cfcommon.random_event(rng, vs, kmax=3))
+            roots = [[n, ivs] for n, ivs, _ in ev]
+            conds = rng.sample(roots, rng.randint(0, len(roots)))      # X* is a subset of W*
+            yield ("components", {"nodes": vs, "directed": d, "undirected": u, "roots": roots, "conds": conds})
+        for _ in range(2):
+            ev = cfcommon.event_to_json(cfcommon.random_event(rng, vs, kmax=2))
+            if len({n for n, _, _ in ev}) == len(ev):
+                yield ("factor", {"nodes": vs, "directed": d, "undirected": u, "query": ev, "seed": rng.randrange(1 << 30)})
+
+
+RUNNERS = {"def": run_def_case, "simplify": run_simplify_case, "components": run_components_case, "factor": run_factor_case}
 
 
 def _eval(job):
     kind, c = job
     try:
-        return kind, c, (run_def_case(c) if kind == "def" else run_simplify_case(c)), None
+        return kind, c, RUNNERS[kind](c), None
     except Exception as e:
         return kind, c, None, f"{type(e).__name__}: {e}"
 
@@ -149,9 +297,10 @@ def extra(rep, repo, registry, known_open):
                 fails.append((kind, c, why))
     if errs:
         rep.errors.append(f"C19 bounded part: {len(errs)} evaluation errors, e.g. {errs[0]}")
-    rep.extra_parts.append({"name": "definitions-and-simplify", "kind": "bounded", "decides": True, "evaluations": len(jobs),
+    rep.extra_parts.append({"name": "definitions-simplify-components-factorisation", "kind": "bounded", "decides": True, "evaluations": len(jobs),
                             "scope": "every ADMG on 2-3 nodes and sampled 3-4 node ADMGs; every counterfactual variable with <= 2 subscripts (minimisation, Def. 2.1 "
-                                     "ancestors against re-implemented definitions); sampled events with <= 3 conjuncts (SIMPLIFY against a functional-SCM oracle; reflexive subscripts included except the known-finding class)",
+                                     "ancestors against re-implemented definitions); sampled events with <= 3 conjuncts (SIMPLIFY against a functional-SCM oracle; reflexive subscripts included except the known-finding class); "
+                                     "sampled root sets with <= 3 variables and conditioned subsets (ancestral components, Def. 4.2); sampled queries with <= 2 conjuncts (ctf-factor factorisation, Eq. 11-15, structurally and numerically)",
                             "failures": len(fails), "wall_s": round(time.time() - t0, 1)})
     for kf in known_open:
         if kf["obligation"].endswith("/bounded.simplify"):
@@ -167,7 +316,7 @@ def extra(rep, repo, registry, known_open):
 
 
 def replay(payload, path):
-    why = run_def_case(payload["case"]) if payload["kind"] == "def" else run_simplify_case(payload["case"])
+    why = RUNNERS[payload["kind"]](payload["case"])
     print(json.dumps({"case": payload["case"], "now": why}, indent=1))
     if why:
         print(f"VIOLATION property=C19 replay={path}")
